@@ -172,6 +172,7 @@ type GenOpts struct {
 	NoDotted    bool
 	NoSubQuery  bool
 	SelfLinks   bool            // sub-queries only over link sets that point back at the same store (C20)
+	PreferSets  []symSpec       // set symbols drawn preferentially (40 %) by set-function atoms: the sub-query generator uses it to re-use the link symbol it iterates
 	SubSort     []string        // when set, sub-queries sometimes carry a "sort by" over these symbols
 	Boost       map[string]int  // multiplies the weight of an atom kind (scalar null boolsym const setfn count isempty subcount subempty)
 	Exclude     map[string]bool // atom classes excluded by construction (known findings); counted by the caller
@@ -441,6 +442,14 @@ func setsFor(kind string, o *GenOpts) []symSpec {
 	return out
 }
 
+// preferred returns o.PreferSets in 40 % of the draws (when set), otherwise all.
+func preferred(t *rapid.T, l string, all []symSpec, o *GenOpts) []symSpec {
+	if len(o.PreferSets) > 0 && chance(t, l, 40) {
+		return o.PreferSets
+	}
+	return all
+}
+
 func linkSetsFor(kind string) []symSpec {
 	if kind == "places" {
 		return []symSpec{{"people", "people"}}
@@ -506,7 +515,7 @@ func GenAtom(t *rapid.T, l string, kind string, depth int, o *GenOpts) *Expr {
 		o.label("bool-const")
 		return &Expr{Op: pick(t, l+"_const", []string{"true", "false"})}
 	case "setfn":
-		s := pick(t, l+"_set", setsFor(kind, o))
+		s := pick(t, l+"_set", preferred(t, l+"_setpref", setsFor(kind, o), o))
 		fn := pick(t, l+"_fn", []string{"anyOf", "allOf"})
 		if containsDot(s.name) {
 			o.label("set:dotted")
@@ -515,11 +524,11 @@ func GenAtom(t *rapid.T, l string, kind string, depth int, o *GenOpts) *Expr {
 		}
 		return genAtomOn(t, l, &LHS{Fn: fn, Sym: s.name}, s.decl, o)
 	case "count":
-		s := pick(t, l+"_cset", setsFor(kind, o))
+		s := pick(t, l+"_cset", preferred(t, l+"_csetpref", setsFor(kind, o), o))
 		o.label("count")
 		return genCountAtom(t, l, &LHS{Fn: "count", Sym: s.name}, o)
 	case "isempty":
-		s := pick(t, l+"_eset", setsFor(kind, o))
+		s := pick(t, l+"_eset", preferred(t, l+"_esetpref", setsFor(kind, o), o))
 		o.label("isEmpty")
 		return &Expr{Op: "isempty", L: &LHS{Sym: s.name}}
 	case "subcount", "subempty":
@@ -528,7 +537,16 @@ func GenAtom(t *rapid.T, l string, kind string, depth int, o *GenOpts) *Expr {
 			links = []symSpec{{"peers", "people"}}
 		}
 		ls := pick(t, l+"_link", links)
-		sub := GenExpr(t, l+"_sub", ls.decl, depth-1, &GenOpts{NoSubQuery: true, NoMaps: o.NoMaps, NoDotted: o.NoDotted, Exclude: o.Exclude, Classes: o.Classes, ExcludedHit: o.ExcludedHit, Boost: o.Boost})
+		inner := &GenOpts{NoSubQuery: true, NoMaps: o.NoMaps, NoDotted: o.NoDotted, Exclude: o.Exclude, Classes: o.Classes, ExcludedHit: o.ExcludedHit, Boost: o.Boost}
+		if ls.name == "peers" && kind == "people" {
+			// the sub-query iterates a link set that points back into the same store: its predicate often uses that very
+			// symbol again (a second cursor over the same set symbol, on another row, while the first is still open)
+			inner.PreferSets = []symSpec{{"peers", "s"}, {"peers", "s"}, {"roles", "s"}}
+			if !o.NoDotted {
+				inner.PreferSets = append(inner.PreferSets, symSpec{"peers.roles", "s"}, symSpec{"peers.sa", "s"})
+			}
+		}
+		sub := GenExpr(t, l+"_sub", ls.decl, depth-1, inner)
 		var subSort []SortKey
 		if len(o.SubSort) > 0 && chance(t, l+"_subsort", 40) {
 			n := rapid.IntRange(1, 2).Draw(t, l+"_nsubsort")
